@@ -53,6 +53,27 @@ def directed_slow():
              {"op": "throttleexpire"}, Bal("A", "A", "A")]]
 
 
+def directed_lift():
+    """The same with the throttle marks deleted from the real flash memory instead of waiting for the window to pass."""
+    Bal = lambda a, d, by: {"op": "balance", "a": a, "d": d, "by": by}
+    L = {"op": "throttlelift"}
+    return [[Bal("A", "A", "A"), Bal("B", "B", "B"), L, Bal("A", "A", "M"), Bal("B", "B", "A"), L, Bal("A", "A", "A"), L,
+             Bal("A", "B", "A"), L, Bal("B", "B", "M"), L, Bal("M", "M", "M"), L, Bal("M", "M", "A")],
+            [{"op": "propose", "t": "p1", "by": "A", "form": "issued"}, Bal("A", "A", "A"), Bal("B", "B", "B"), L, Bal("B", "B", "M"),
+             Bal("A", "A", "B"), L, Bal("A", "A", "A"), Bal("B", "B", "B")]]
+
+
+def directed_races(tier):
+    """The same request many times at once, many times over: a contract is sealed / rejected at most once."""
+    P = lambda t, by="A", form="issued": {"op": "propose", "t": t, "by": by, "form": form}
+    B = lambda kind, n=8, **kw: dict({"op": "burst", "kind": kind, "n": n}, **kw)
+    out = []
+    for i in range(12 if tier == "quick" else 150):
+        out.append([P("c1"), B("confirm", n=16, t="c1", issBy="A", rcvBy="B"), P("c2"), B("reject", n=16, t="c2", a="B", by="B")])
+        out.append([P("c1"), P("c2"), B("confirm", n=12, t="c1", issBy="A", rcvBy="B"), B("confirm", n=12, t="c2", issBy="A", rcvBy="B")])
+    return out
+
+
 def directed():
     P = lambda t, by="A", form="issued": {"op": "propose", "t": t, "by": by, "form": form}
     C = lambda t, i="A", r="B": {"op": "confirm", "t": t, "issBy": i, "rcvBy": r}
@@ -142,7 +163,7 @@ def check(prop, tier):
     sims = simulate(wd, 120 if tier == "quick" else 1500, 22, rng.randint(1, 10 ** 6))
     # the behaviours that wait for the 20 s read throttle to lapse take over a minute: thorough tier only
     extra = directed_slow() if tier == "thorough" else []
-    behaviours = [{"id": "C16-%d" % i, "ops": ops} for i, ops in enumerate(sims + directed() + extra)]
+    behaviours = [{"id": "C16-%d" % i, "ops": ops} for i, ops in enumerate(sims + directed() + directed_lift() + directed_races(tier) + extra)]
     log("[gen] %d behaviours" % len(behaviours))
     violations, nev, calls = drive_validate(wd, drivebin, behaviours, INV)
     kv, _, _ = drive_validate(os.path.join(wd, "kf"), drivebin, [{"id": "C16-witness-F11", "ops": WITNESS_F11}],
